@@ -814,6 +814,7 @@ PERTURB = [
     ("blob.mode", "blob", lambda r, b: [0, 255, 256, -1], _set("mode")),
     ("blob.dek", "blob", lambda r, b: [b.dek[:-1], b.dek + b"\0"], _set("dek")),
     ("blob.dek_keyblob", "blob", lambda r, b: [b.dek_keyblob[:-1], b.dek_keyblob + b"\0", b""], _set("dek_keyblob")),
+    ("c.srk_set(signed)", "c", lambda r, c: [c.flags & ~3, c.flags], _set("flags")),
     ("count.images", "c", lambda r, c: [0, 1, 2], None),
     ("count.containers", "img", lambda r, a: [0, 1], None),
     ("none", "c", lambda r, c: [None] * 4, lambda o, v: None),
@@ -834,7 +835,11 @@ def verify_stream(cx, nper):
             tm = rng.choice(TARGET_MEMS)
             case = gen_case(rng, row, tm, True, {"srk": None, "ncont": rng.choice([1, 1, 2]), "nimg": rng.choice([1, 2])})
             for c in case["containers"]:
-                c["srk"] = None
+                c["srk"] = rng.choice(["ecc256", "ecc384"]) if name == "c.srk_set(signed)" else None
+                if c["srk"]:
+                    c["images"] = c["images"][:1]
+                    c["blob"] = None
+                    c["images"][0]["enc"] = False
                 c["overfull"] = False
                 if target in ("blob", "sbblob") and not c["blob"]:
                     c["blob"] = {"size": rng.choice([128, 192, 256]), "kid": rng.getrandbits(32), "dek": rng.randbytes(32).hex()}
@@ -948,6 +953,28 @@ def fields_stream(cx):
             s.note(inp)
             reqs.append((inp, f"coffset {v} {ix}", canon(r)))
             s.expect(r == ("ok", ix * cls.CONTAINER_SIZE) if 0 <= ix <= 3 else r[0] == "E:spsdk", inp, "containers are not at k * CONTAINER_SIZE", r)
+    # container flag word from the configuration keys (v2: + check_all_signatures)
+    for v, cls, fam in (("v1", AHABContainer, "mimxrt1189"), ("v2", AHABContainerV2, "mimx943")):
+        chip = create_chip_config(fam)
+        for srk_set in ("none", "nxp", "oem"):
+            for gdet in ("disabled", "enabled_eleapi", "enabled"):
+                for ca in (("default", "check_all_signatures") if v == "v2" else ("default",)):
+                    for used, revoke in ((0, 0), (3, 15), (rng.randrange(4), rng.randrange(16))):
+                        c = cls(chip)
+                        cfgd = {"srk_set": srk_set, "used_srk_id": used, "srk_revoke_mask": revoke, "gdet_runtime_behavior": gdet}
+                        if v == "v2":
+                            cfgd["check_all_signatures"] = ca
+                        r = pyres(c._load_from_config_flags, cfgd)
+                        inp = ("cflags", v, srk_set, used, revoke, gdet, ca)
+                        s.note(inp)
+                        tags = ({"none": 0, "nxp": 1, "oem": 2}[srk_set], {"disabled": 0, "enabled_eleapi": 1, "enabled": 2}[gdet],
+                                int(ca == "check_all_signatures"))
+                        reqs.append((inp, f"cflags {v} {tags[0]} {used} {revoke} {tags[1]} {tags[2]}", "ok:%d" % c.flags if r[0] == "ok" else r[0]))
+                        got = pyres(lambda: (c.flag_srk_set.tag, c.flag_used_srk_id, c.flag_srk_revoke_keys, c.flag_gdet_runtime_behavior.tag,
+                                             c.flag_check_all_signatures.tag if v == "v2" else 0))
+                        s.expect(r[0] == "ok" and got == ("ok", (tags[0], used, revoke, tags[1], tags[2])), inp,
+                                 "the container flag getters do not return the configured SRK set / used SRK / revoke mask / GDET behaviour / "
+                                 "check-all-signatures option", got, (tags[0], used, revoke, tags[1], tags[2]))
     # decoders on real and corrupted bytes
     for v, cls in (("v1", ImageArrayEntry), ("v2", ImageArrayEntryV2)):
         cc = AHABContainer(create_chip_config("mimxrt1189")).chip_config
@@ -1072,7 +1099,9 @@ def cli_stream(cx, picks):
         if not os.path.exists(pc):
             continue
         plain = not any(c["srk"] or c["blob"] for c in case["containers"])
-        if plain:
+        # (serial_downloader: the configuration cannot carry image offsets - load_from_config forces them to 0 - so gaps of the
+        # original layout are not reproducible from the parsed configuration; not part of the property)
+        if plain and case["tm"] != "serial_downloader":
             with open(pc, encoding="utf-8") as fh:
                 pcfg = yaml.safe_load(fh)
             pcfg["output"] = os.path.join(d, "again.bin")
